@@ -26,8 +26,8 @@ META = {
             "fail-closed, exercised by the grid); IEEE rounding is not modelled beyond the 1e-12 enclosure check.",
 }
 
-K_ISONE = "inherited-is-one-compares-bound-method"
-K_SYMNORM = "symbolic-normalize-unparenthesised-divisor"
+K_ISONE = "is-one-compares-with-bound-method"
+K_SYMNORM = "symbolic-normalize-unparenthesised"
 
 HEADER = """From Coq Require Import ZArith QArith String List Bool.
 From PL.C12 Require Import ModelPy GenSemirings.
@@ -148,7 +148,7 @@ def log_grid(rng, extra):
 
 
 # ------------------------------------------------------------------ reading back serialised QE results
-getcontext().prec = 60
+getcontext().prec = 40
 
 
 def parse_nested(txt):
@@ -642,16 +642,19 @@ def run(ctx):
     ctx.log("translated; building proof cone")
     ok = ctx.prove("C12/Props.v")
     ctx.log("Props.v:", "ok" if ok else "BROKEN")
+    if ok and ctx.tier == "thorough":
+        ctx.coqchk("PL.C12.Props")
+        ctx.log("coqchk done")
     # ---- documented defaults on the real classes (and on a minimal subclass)
     judge_defaults(ctx)
     if not ok:
         return
     # ---- float-level tie
-    extra = ctx.n(20, 400)
+    extra = ctx.n(20, 150)
     ug, lg = unit_grid(ctx.rng, extra), log_grid(ctx.rng, extra)
     for cls, prefix, eg, ig in ((SemiringProbability, "prob", ug, ug), (SemiringLogProbability, "log", ug, lg)):
         ctx.log("float-level tie of", prefix)
-        cases = tie_numeric(ctx, cls, prefix, eg, ig, ctx.n(120, 6000), ctx.n(50, 1500), ctx.n(12, 30))
+        cases = tie_numeric(ctx, cls, prefix, eg, ig, ctx.n(120, 2500), ctx.n(50, 800), ctx.n(12, 24))
         try:
             bad, skipped = check_numeric(ctx, prefix, cases)
         except RuntimeError as e:
